@@ -171,6 +171,16 @@ static const char *const HAND[] = {
     "n=3 s=0 f=2 arcs=0>1:go:1,0>2:eps:1,1>2:no:1",
 };
 static char HANDBUF[sizeof HAND / sizeof *HAND][128];
+/* every spelling class the dictionary accepts: quote, backslash, non-ASCII bytes, a control character */
+static const char *const SPECIAL[] = {
+    "n=2 s=0 f=1 arcs=0>1:say\"q:1",
+    "n=2 s=0 f=1 arcs=0>1:back\\slash:1",
+    "n=2 s=0 f=1 arcs=0>1:caf\xc3\xa9:1",
+    "n=2 s=0 f=1 arcs=0>1:ctl\x01x:1",
+    "n=3 s=0 f=2 arcs=0>1:say\"q:1,1>2:back\\slash:1,1>2:a:1",
+    "n=2 s=0 f=1 arcs=0>1:a:1,1>1:caf\xc3\xa9:1,0>1:ctl\x01x:1",
+};
+static char SPECBUF[sizeof SPECIAL / sizeof *SPECIAL][128];
 
 static void
 build_hand_gset(void)
@@ -183,6 +193,21 @@ build_hand_gset(void)
             NG++;
         else {
             fprintf(stderr, "bad hand grammar %d\n", i);
+            exit(2);
+        }
+}
+
+static void
+build_special_gset(void)
+{
+    int i, n = (int)(sizeof SPECIAL / sizeof *SPECIAL);
+    GSET = malloc(sizeof(gspec_t) * n);
+    NG = 0;
+    for (i = 0; i < n; i++)
+        if (gs_parse(SPECIAL[i], &GSET[NG], SPECBUF[i], sizeof SPECBUF[i]) == 0)
+            NG++;
+        else {
+            fprintf(stderr, "bad special grammar %d\n", i);
             exit(2);
         }
 }
@@ -565,7 +590,7 @@ run_dcase(const dcase_t *c)
         /* frame-sized chunks, partial result after every chunk */
         size_t off = 0;
         while (off < nsamp) {
-            size_t n = nsamp - off < 160 ? nsamp - off : 160;
+            size_t n = nsamp - off < (size_t)DC_SHIFT ? nsamp - off : (size_t)DC_SHIFT;
             rc = decoder_process_int16(D, ZEROS + off, n, 0, 0);
             if (rc < 0) {
                 mc_viol("C03/process-failed", cd, "decoder_process_int16 returned %d", rc);
@@ -580,6 +605,16 @@ run_dcase(const dcase_t *c)
                 if (P_C03 && check_c03(&R, nsearched, cd, when) < 0)
                     goto out;
                 if (P_C01 && check_c01(g, &R, 0, cd, when) < 0)
+                    goto out;
+            }
+            if ((P_C04 || P_C14) && nsearched > 0 && (nsearched % 4) == 1) {
+                /* second pass and JSON on a partial result, then the utterance goes on */
+                char when[64];
+                dc_collect(D, &R);
+                snprintf(when, sizeof when, "partial result after %d frames", nsearched);
+                if (P_C04 && check_c04(&R, nsearched, cd, when) < 0)
+                    goto out;
+                if (P_C14 && check_c14(&R, cd, when) < 0)
                     goto out;
             }
         }
@@ -738,10 +773,11 @@ main(int argc, char **argv)
     CONF.lw = mc_arg(argc, argv, "--lw", NULL);
     CONF.wip = mc_arg(argc, argv, "--wip", NULL);
     CONF.pip = mc_arg(argc, argv, "--pip", NULL);
+    CONF.frate = atoi(mc_arg(argc, argv, "--frate", "0"));
     {
         static char cn[160];
-        snprintf(cn, sizeof cn, "%s/filler%d/alt%d/lw%s/wip%s/pip%s", CONFNAME, CONF.usefiller, CONF.usealt, CONF.lw ? CONF.lw : "-",
-                 CONF.wip ? CONF.wip : "-", CONF.pip ? CONF.pip : "-");
+        snprintf(cn, sizeof cn, "%s/filler%d/alt%d/lw%s/wip%s/pip%s%s", CONFNAME, CONF.usefiller, CONF.usealt, CONF.lw ? CONF.lw : "-",
+                 CONF.wip ? CONF.wip : "-", CONF.pip ? CONF.pip : "-", CONF.frate ? "/frate50" : "");
         CONFNAME = cn;
     }
     dc_write_dict();
@@ -810,7 +846,9 @@ main(int argc, char **argv)
         int ns, na;
         sscanf(gset, "enum:%d:%d", &ns, &na);
         build_enum_gset(ns, na);
-    } else
+    } else if (strcmp(gset, "special") == 0)
+        build_special_gset();
+    else
         build_hand_gset();
     total = (long long)NG * NR * NUTT * NPAT;
     mc_sample("conf=%s: %d grammars (%s) x %d routes x %ld utterances (<=%d segments of %d symbols, lengths %d..) x %d call patterns = %lld cases", CONFNAME,
